@@ -1,5 +1,5 @@
 CONSTANTS
-  MaxCoord = 7
+  MaxCoord = 5
   Gap = 2
   MayFail = TRUE
   Guarded = TRUE
